@@ -99,9 +99,10 @@ def outStages (P : List (List SOp)) (v : Opnd) : List Nat :=
 /-- what a stage operand becomes -/
 def classify (P : List (List SOp)) (v : Opnd) : Except Err Opnd :=
   match v with
-  | .tile j => .ok (.tile j)
   | .dup b => .ok (.dup b)
   | v =>
+    -- a view computed by an index op (`tile`) is analysed like any other buffer: it only becomes an index-op result
+    -- ("safe") when it is read-only or write-only; as a stage-to-stage buffer it is refused (not an allocation)
     match inStages P v, outStages P v with
     | [], _ => .ok v
     | _, [] => .ok v
@@ -207,15 +208,20 @@ structure Ev where
   n : Nat
   deriving DecidableEq, Repr
 
-/-- tile `j` views array `(tiles[j]).1` at element `n + (tiles[j]).2` -/
-def resolve (tiles : List (Nat × Nat)) (dbl : Bool) (n : Nat) : Opnd → Loc
-  | .tile j => .cell (tiles.getD j (0, 0)).1 (n + (tiles.getD j (0, 0)).2)
+def tileArr (tiles : List (Nat × Nat × Bool)) (j : Nat) : Nat := (tiles.getD j (0, 0, false)).1
+def tileOff (tiles : List (Nat × Nat × Bool)) (j : Nat) : Nat := (tiles.getD j (0, 0, false)).2.1
+/-- loop-invariant view (`subview A[off]`) instead of `subview A[i + off]` -/
+def tileInv (tiles : List (Nat × Nat × Bool)) (j : Nat) : Bool := (tiles.getD j (0, 0, false)).2.2
+
+/-- tile `j` = (array, offset, invariant) views element `n + offset` (or `offset` if loop-invariant) of its array -/
+def resolve (tiles : List (Nat × Nat × Bool)) (dbl : Bool) (n : Nat) : Opnd → Loc
+  | .tile j => .cell (tileArr tiles j) ((if tileInv tiles j then 0 else n) + tileOff tiles j)
   | .alloc b => .buf b 0
   | .ext b => .ext b
   | .dup b => .buf b (if dbl then n % 2 else 0)
 
 structure Prog where
-  tiles : List (Nat × Nat)
+  tiles : List (Nat × Nat × Bool)
   stages : List (List SOp)     -- after `duplicate`
 
 def Prog.opAt (p : Prog) (e : Ev) : SOp := (p.stages.getD e.k []).getD e.o ⟨0, [], []⟩
@@ -276,22 +282,21 @@ def oneWriterStage (p : Prog) : Bool :=
 
 /-- input clause: two tiles that view the same array do so at the same offset from the loop index -/
 def tilesAligned (p : Prog) : Bool :=
-  p.tiles.all fun t => p.tiles.all fun t' => t.1 != t'.1 || t.2 == t'.2
+  p.tiles.all fun t => p.tiles.all fun t' => t.1 != t'.1 || (t.2.1 == t'.2.1 && !t.2.2 && !t'.2.2)
 
 /-- every (stage, is-output, operand) occurrence of the program -/
 def touches (p : Prog) : List (Nat × Bool × Opnd) :=
   (allOps p).flatMap fun ko => ko.2.ins.map (fun v => (ko.1, false, v)) ++ ko.2.outs.map (fun v => (ko.1, true, v))
 
-def tileArr (tiles : List (Nat × Nat)) (j : Nat) : Nat := (tiles.getD j (0, 0)).1
-def tileOff (tiles : List (Nat × Nat)) (j : Nat) : Nat := (tiles.getD j (0, 0)).2
 
 /-- two operand occurrences, at least one of them an output, may coexist in a pipeline:
-tiles of one array have the same offset (input clause TilesAligned); a shared buffer that is written is touched by one
+tiles of one array are loop-variant with the same offset, or belong to one stage (input clause TilesAligned); a shared buffer that is written is touched by one
 stage only (PipelineDuplicateBuffers: never read; input clause OneWriterStage: one writing stage); a duplicated buffer
 is written by one stage and read by the next only, and is not also used directly (PipelineDuplicateBuffers) -/
-def pairOK (tiles : List (Nat × Nat)) (x y : Nat × Bool × Opnd) : Bool :=
+def pairOK (tiles : List (Nat × Nat × Bool)) (x y : Nat × Bool × Opnd) : Bool :=
   match x.2.2, y.2.2 with
-  | .tile j, .tile j' => tileArr tiles j != tileArr tiles j' || tileOff tiles j == tileOff tiles j'
+  | .tile j, .tile j' => tileArr tiles j != tileArr tiles j'
+      || (!tileInv tiles j && !tileInv tiles j' && tileOff tiles j == tileOff tiles j') || x.1 == y.1
   | .alloc b, .alloc b' => b != b' || x.1 == y.1
   | .ext b, .ext b' => b != b' || x.1 == y.1
   | .alloc b, .dup b' => b != b'
